@@ -18,7 +18,7 @@ CLAIMS = {
                 "the derivative recursion (m=0 -> value, k=1 or m>=k -> 0, factor k-1, Some(org_k) on every recursive call); every quotient's "
                 "denominator must be the difference its guard tests. Non-negativity, locality and partition of unity are consequences of the "
                 "recurrence and are not separately evaluated."
-                ' Also included: R15.4 (the basis at a dual abscissa) and R15.6 (the vectorised evaluator and the Python-facing spline methods reach the kernels with their arguments unchanged). Path sets are minimised, so the order of independent tests does not matter.',
+                ' Also included: R15.4 (the basis at a dual abscissa) and R15.6 (the vectorised evaluator and the Python-facing spline methods reach the kernels with their arguments unchanged). Path sets are minimised, so the order of independent tests does not matter. R15.1 is included too (the collocation matrix evaluates basis i at site j for every site).',
         "design_ref": "DESIGN.md §4 C14",
         "note": "Not decided: values at concrete knots/points, rounding. A behaviour-preserving restructuring of the kernels' decision order can trip R14.1 (fail closed).",
         "technique": "path-set equality of symbolic summaries against the recurrence; guard/denominator agreement",
@@ -41,7 +41,7 @@ CLAIMS = {
                 "index) and paired with edge writes; crosses only where the edge entry is 0; Ok(true) only under edges.sum()==n*n, exhausted "
                 "candidates give Err; lookup reads [idx(lhs), idx(rhs)] in all variants. By induction every entry of an Ok market is the product of "
                 "quotes along a path with inverses on reversed edges, quoted pairs returned as quoted."
-                " Also included: C10's state rules R10.3-R10.6, the FXRates loader rule (S20.2: a stored market goes through try_new) and R10.7 (Python-facing FXRates methods delegate unchanged).",
+                " Also included: C10's state rules R10.3-R10.6, the FXRates loader rule (S20.2: a stored market goes through try_new) and R10.7 (Python-facing FXRates methods delegate unchanged). S16.1 is included (a stored market's quotes come back exactly: exact float text round trip); the starting-array builders are found by what they return, not by name.",
         "design_ref": "DESIGN.md §4 C09",
         "note": "Not decided (declared): that every valid tree is accepted (liveness of the recursive fill-in); order/base independence as executed; rounding.",
         "technique": "path flattening of symbolic summaries; array-comprehension semantics of indexed writes (chain typing); quantifier shapes",
@@ -75,7 +75,7 @@ CLAIMS = {
                 "NamedCal and every CalType variant forward to the wrapped calendar; Cal's leaves are the mask/holiday membership tests; try_new's three "
                 "paths (lower-case before split, >2 parts Err, part 0 -> calendars, part 1 -> settlement) and parse_cals (one lookup per piece, ? "
                 "propagation); the behavioural equalities quantify over 1970-01-01..2200-12-31 and require both agreements on the same date."
-                ' Also included: R05.6 (Python-facing calendar methods).',
+                ' Also included: R05.6 (Python-facing calendar methods). R06.5: the Python-facing __eq__ of the three calendar classes is the core == for every kind of right operand.',
         "design_ref": "DESIGN.md §4 C06",
         "note": "Not decided: nothing about concrete dates (C07). Trusted: lib/cel.py quantifier model; cal_date_range being calendar independent is checked.",
         "technique": "symbolic evaluation with quantifier normal forms (NNF); path flattening; delegation tables",
@@ -138,7 +138,7 @@ CLAIMS = {
                 "values through value-preserving conversions, float nodes raised with exactly tag vars[i] by enumerate index over the sorted map, "
                 "vars = id+'0'.. ; nodes_into_order sorts before enumerating (MIR dominance) and tags the same way; index_value is base/curve value with "
                 "exactly 0 strictly before the first node and Err without a base."
-                ' Also included: R12.4 (Python-facing Curve: one delegation, no re-tagging detour) and the AD rules.',
+                ' Also included: R12.4 (Python-facing Curve: one delegation, no re-tagging detour) and the AD rules. R11.4 is included (the sort of the stored nodes is a must-pass-through on every construction path: \'i-th node in date order\').',
         "design_ref": "DESIGN.md §4 C12",
         "note": "Not decided: numeric gradients/Hessians of looked-up values (follow from C11's generic formulas + C01/C02). Trusted: lib/cel.py Seq model.",
         "technique": "exhaustive case evaluation of match tables with a symbolic iterator model; MIR dominance",
@@ -157,7 +157,7 @@ CLAIMS = {
         "text": "partial_cmp impls are f64::partial_cmp of the two values in operand order and no other PartialOrd method is overridden; abs is the "
                 "piecewise flip of all fields; every % impl equals the oracle row a - trunc(a/b)*b in value and derivatives; Sum is fold(zero,+) from a "
                 "variable-free zero; zero()/one() are variable-free constants, neutral by the oracle rows."
-                ' Also: R19.1b (comparisons on the Number container), the quotient of `%` is trunc of one f64 division (R19.3 side condition), and the number-surface rules R18.3/R18.4.',
+                ' Also: R19.1b (comparisons on the Number container), the quotient of `%` is trunc of one f64 division (R19.3 side condition), and the number-surface rules R18.3/R18.4. The alignment rules (C03 R03.3/R03.5: by-name gather of gradients and Hessians) are included.',
         "design_ref": "DESIGN.md §4 C19",
         "note": "Trusted: lib/cel.py, lib/oracle.py. Not decided: NaN ordering; abs exactly at zero.",
         "technique": "symbolic normalisation of typed HIR against a calculus oracle; idiom recognition (fold-from-zero)",
@@ -168,7 +168,7 @@ CLAIMS = {
                 "with exact rational coefficients and must equal the form generated from an independent 12-row derivative table; all 48 operand "
                 "mixes must exist; operand-swapping macro only for + and *. This decides that each local rule is the calculus rule as an identity "
                 "over the reals for every variant — a site-quantified argument the sampled tests cannot give. Composition is by induction (C03)."
-                " Also included (necessary conditions at the surface a user touches): the Number container's operator tables (R18.3), Sum as a fold with + (R19.4), the Python-facing operators (R18.4), gradient read-back (R17.1) and C03's alignment rules.",
+                " Also included (necessary conditions at the surface a user touches): the Number container's operator tables (R18.3), Sum as a fold with + (R19.4), the Python-facing operators (R18.4), gradient read-back (R17.1) and C03's alignment rules. R19.2 (abs) is included.",
         "design_ref": "DESIGN.md §4 C01, §2 oracle",
         "note": "Trusted: lib/cel.py normaliser, lib/oracle.py table. Not decided: IEEE rounding, library kernels (atoms), domain edges.",
         "technique": "symbolic normalisation of typed HIR (term rewriting) against a calculus oracle; impl-table completeness",
@@ -176,7 +176,7 @@ CLAIMS = {
     "C02": {
         "text": "As C01 for Dual2 including the half-Hessian (symmetrised cross term, 1/2 convention), plus sibling agreement of value/gradient with "
                 "the first-order operator and field-flow identity of the Dual<->Dual2 conversions."
-                " Also included: R18.3, R19.4, R18.4 (Number container, Sum, Python-facing operators), C17's read-back rules and C03's alignment rules.",
+                " Also included: R18.3, R19.4, R18.4 (Number container, Sum, Python-facing operators), C17's read-back rules and C03's alignment rules. R19.2 (abs negates value, gradient and Hessian together) is included.",
         "design_ref": "DESIGN.md §4 C02",
         "note": "Trusted: lib/cel.py, lib/oracle.py. Not decided: rounding, kernels, symmetry of user-supplied asymmetric Hessians; read-back factor 2 is in C17.",
         "technique": "symbolic normalisation of typed HIR against a calculus oracle; sibling cross-check",
@@ -187,7 +187,7 @@ CLAIMS = {
                 "repository's own declarative Holiday(...) rule lists over 1970-2200 (the scripts are parsed with ast, never executed); partial "
                 "calendars must contain every weekday occurrence of their interpretable rules; the nine fixing histories must equal the calendars' "
                 "business days over their span. All ~29 000 literals and all 14 names are covered on every run."
-                " Also included: Cal's leaf membership tests (R06.0, R06.2) and the range enumeration used by the back-test (R05.1, R05.5, R04.1, R04.5).",
+                " Also included: Cal's leaf membership tests (R06.0, R06.2) and the range enumeration used by the back-test (R05.1, R05.5, R04.1, R04.5). The storage rules of the calendar types are included (C16 S16.2/S16.3/S16.7 for calendars::calendar::*: a restored calendar is the stored one). Name-to-table wiring and plumbing are obtained by evaluating the getters on each literal name.",
         "design_ref": "DESIGN.md §4 C07",
         "note": "Trusted: lib/holidays.py (interpreter of the pandas Holiday subset; reproduces every fully interpretable table exactly), python ast/csv. "
                 "Not decided: whether the scripts themselves match the central banks' publications; holidays produced by script-local observance "
@@ -200,7 +200,7 @@ CLAIMS = {
                 "models mirror the serialised fields; the tagged from_json entry point has a variant per writer and each writer wraps its own type; "
                 "pickling pairs serialise/restore the whole object; no bincode-hostile serde attribute; equality covers the serialised fields. These "
                 "are the structural necessary conditions of the round trip; equality of concrete objects is not evaluated."
-                " Also: S16.9 (a validating loader's Ok path demands exactly the shape invariant, so every constructible object loads back) and R10.4 (after update() the stored quotes are the updated ones).",
+                " Also: S16.9 (a validating loader's Ok path demands exactly the shape invariant, so every constructible object loads back) and R10.4 (after update() the stored quotes are the updated ones). S16.10: every constructor code a pickle carries (__getnewargs__ of the u8-coded enums) is accepted by #[new]; S16.7 also requires that a rebuilding conversion returns the constructor's result unchanged.",
         "design_ref": "DESIGN.md §4 C16",
         "note": "Trusted: serde/serde_json/bincode/ndarray/indexmap serde implementations, cargo metadata. Not decided: numerical equality after a round "
                 "trip of concrete objects.",
